@@ -239,20 +239,22 @@ impl Space for HistorySpace {
 
 pub fn main(tier: Tier, replay: Option<String>) -> i32 {
     let mut rep = Report::new("C10", "model_checking", tier);
-    rep.rule = "states = every sequence of operations up to `depth` on one tokenizer, one reused result list and one reused split list (set_mode x3, set_subset x3, analyse+collect of long / short / empty / over-long original / over-long normalised / numeral-joining / split-bearing texts, analyse without collect, collect alone, on-demand split into the reused list, exact lookup on the reused list, clear); after each sequence six probes are analysed on the used objects and on fresh ones; compared on boundaries, word identities and every requested field; non-trivial = non-empty history".into();
+    rep.rule = "states = every sequence of operations up to `depth` on one tokenizer, one reused result list and one reused split list (set_mode x3, set_subset x3, analyse+collect of long / short / empty / over-long original / over-long normalised / numeral-joining / split-bearing texts, analyse without collect, collect alone, on-demand split into the reused list, exact lookup on the reused list, clear); after each sequence seven probes are analysed on the used objects and on fresh ones; compared on boundaries, word identities and every requested field; non-trivial = non-empty history".into();
     rep.assumptions = vec!["field requests are restricted, as in the statement, to subsets containing what the configured path-rewrite plugins read (surface, part of speech, normalised form) in the world with path rewriting; the world without path rewriting also uses the empty request".into()];
     let mut jobs: Vec<Box<dyn AnyJob>> = Vec::new();
     let too_long = "あ".repeat(16384); // 49152 bytes > 49149
     let norm_overflow = "\u{fdfa}".repeat(2000); // 6000 bytes -> 66000 bytes
     let long = "東京都に行く1,000円㍿東京府ab".repeat(6);
     // the last one is rewritten right at its start (a stale offset map would hit the probes)
-    let texts: Vec<String> = vec![long, "京".into(), "".into(), too_long, norm_overflow, "二千三百円".into(), "東京都ab𠮷野".into(), "Ａ㍿京都".into(), "…京".into(), "京都に".repeat(2750)];
+    let texts: Vec<String> = vec![long, "京".into(), "".into(), too_long, norm_overflow, "二千三百円".into(), "東京都ab𠮷野".into(), "Ａ㍿京都".into(), "…京".into(), "京都に".repeat(2750), "ぴらる".repeat(700)];
+    // (the very last one: 2100 characters made of the cheapest word there is - whatever it leaves behind in the lattice is cheaper than any path of a probe)
     // (the very last one is accepted and has 8250 characters: whatever grows with the longest text seen so far has grown)
     // (the last one is rewritten without a change of its byte length: `…` becomes `...`)
     // (the last three: runs of letters - only the first letter of a run may begin a word, whatever began words at these
     // offsets in the texts the two alternating buffers held before; `q` is a dictionary word, so a wrong word start inside
     // `qq` changes the best path)
-    let probes: Vec<String> = vec!["東京都に行く".into(), "1,000円ab㍿".into(), "𠮷野カタカタア".into(), "qq".into(), "abcdefghijklmnopqrstuvwx".into(), "qqq".into()];
+    let probes: Vec<String> = vec!["東京都に行く".into(), "1,000円ab㍿".into(), "𠮷野カタカタア".into(), "qq".into(), "abcdefghijklmnopqrstuvwx".into(), "qqq".into(), "都都東都京".into()];
+    // (the last probe: words whose declared units end in the middle of a character, analysed in a buffer that held letters two analyses ago)
     let ops_for = |with_rewrite: bool| -> (Vec<Op>, Vec<InfoSubset>) {
         let base = InfoSubset::SURFACE | InfoSubset::POS_ID | InfoSubset::NORMALIZED_FORM;
         let subsets = if with_rewrite {
@@ -277,6 +279,7 @@ pub fn main(tier: Tier, replay: Option<String>) -> i32 {
             Op::Analyse(7),
             Op::Analyse(8),
             Op::Analyse(9),
+            Op::Analyse(10),
             Op::AnalyseNoCollect(9),
             Op::AnalyseNoCollect(0),
             Op::AnalyseNoCollect(4),
